@@ -329,6 +329,7 @@ package getoptions
 //@     invariant max.idx: 0 <= iterator.idx && iterator.idx < len(args) && old_loop(iterator.idx) <= iterator.idx
 //@     invariant max.opt: OptOK(cOpt) && 0 <= i
 //@     invariant max.bound {C01,C02}: i <= cOpt.MaxArgs || i == old_loop(i)
+//@     invariant max.min {C01,C02}: i >= cOpt.MinArgs
 //@     invariant max.count {C01,C02}: i - old_loop(i) == iterator.idx - old_loop(iterator.idx)
 //@     invariant max.last {C01}: (i > old_loop(i) ==> ScalarIs(cOpt, args[iterator.idx]) && !LooksLikeOption(args[iterator.idx]) && args[iterator.idx] != "--") && (i == old_loop(i) ==> ScalarSameLoop(cOpt))
 //@     invariant max.seq {C02}: cOpt.OptType == option.StringRepeatType ==> isconcat_range(*cOpt.pStringS, old_loop(*cOpt.pStringS), args, old_loop(iterator.idx) + 1, iterator.idx + 1)
